@@ -1,9 +1,9 @@
 SPECIFICATION Spec
 CONSTANTS
   MaxPGs = 4
-  MaxAGs = 5
+  MaxAGs = 4
   MaxN = 2
-  PrintAGs = 4
+  PrintAGs = 3
   Base = 2
   PerIx = 3
 INVARIANTS IAll
